@@ -31,6 +31,28 @@ func genC19(seed uint64, tier string, idx int) *Plan {
 		ci := g.addConn("attachment", v19, g.distinctPhone(v19, used))
 		g.genUpload(ci, attOpts{maxFiles: 3, maxChunks: 3, chunkMax: 200, hostile: true, finAtEnd: true})
 		if g.r.chance(25) {
+			// a second alarm (another 0x1210 with its own files) on the same connection before it closes
+			a1 := p.Actors[len(p.Actors)-1]
+			f1 := p.Expect.Frames[ci]
+			g.genUpload(ci, attOpts{maxFiles: 2, maxChunks: 3, chunkMax: 200, hostile: g.r.chance(50), finAtEnd: true})
+			a2 := p.Actors[len(p.Actors)-1]
+			p.Actors = p.Actors[:len(p.Actors)-1]
+			k := len(a1.Ops)
+			for k > 0 && a1.Ops[k-1].K != "fin" {
+				k--
+			}
+			ops := append([]Op(nil), a1.Ops[:k-1]...)
+			for _, op := range a2.Ops[1:] {
+				if op.Frame > 0 {
+					op.Frame += len(f1)
+				}
+				ops = append(ops, op)
+			}
+			a1.Ops = ops
+			p.Expect.Frames[ci] = append(append([]SentFrame(nil), f1...), p.Expect.Frames[ci]...)
+			p.Faults = append(p.Faults, "input.second_alarm_same_connection")
+		}
+		if g.r.chance(25) {
 			// close at an arbitrary earlier point
 			a := p.Actors[len(p.Actors)-1]
 			k := 2 + g.r.intn(len(a.Ops)-2)
